@@ -27,7 +27,7 @@ func init() {
 func optionInput(r *mon.Rng, kind string) string {
 	var b strings.Builder
 	frags := []string{"ab", "x1", "12", "3.5", "1e5", ".5", "-7", "'s t'", "'it''s'", "\"w\"", "\"\"", "''", " ", "  ", "\t", "\n", "\r\n", "\n\r", "\r",
-		"/*c*/", "/* a\nb */", "# c\n", "#c", "//c\n", "😀", "𝄞", "￿", "<=", "<>", ">>", "!=", "(", ")", ",", "+", "-", ".", "/", "{{", "}}", "{{{", "}}}", "#", "^", "!", "é", "ш", "€", "AND", "not", ";", "\"a,b\"", "\"a\"\"b\"", "'open", "/*open"}
+		"/*c*/", "/* a\nb */", "# c\n", "#c", "//c\n", "😀", "𝄞", "￿", "<=", "<>", ">>", "!=", "(", ")", ",", "+", "-", ".", "/", "{{", "}}", "{{{", "}}}", "#", "^", "!", "é", "ш", "€", "AND", "not", ";", "\"a,b\"", "\"a\"\"b\"", "'open", "/*open", "\"}}\"", "'}}}'", "/***/", "/* a **/", "\u00a0", "\u0085", "\u2028", "\u007f", "\u3000", "\v", "\f"}
 	n := 1 + r.Intn(10)
 	for i := 0; i < n; i++ {
 		b.WriteString(mon.Pick(r, frags))
@@ -38,7 +38,8 @@ func optionInput(r *mon.Rng, kind string) string {
 var optionPatterns = []string{
 	"a /*c*/ b", "a /*c*/12", "/*c*/12", "/*c*/ш", "/*c*/😀", " /*c*/ ", "a 😀 b", "😀😀", "a😀", "😀 😀", " 😀 ", "1😀2", "/*a*//*b*/", "/*a*/ /*b*/", "'q'/*c*/'r'", "/*c*/'q'",
 	"# c\n12", "a # c\n b", " # c\n ", "#a\n#b\n", "a ￿ b", "￿12", "12￿", "￿￿ x", "/*c*/￿", "😀/*c*/", "  a  ", "\t\n 1 \r\n", "'it''s' \"x\"\"y\"",
-	"{{ a }}", "x{{#if a}} y {{/if}}z", "{{ 😀 }}", "{{a}} 😀 {{b}}", "a,\"b 😀\",c\r\n1,2,3", "a\n\nb", "\r\r\n\n\r", "1 2\n3.5 4\r\n-5", "1/*c*/2", "1 /*c*/ 2.5e3", "a//c\nb", "a // c\n b",
+	"{{ \"}}\" x }}", "{{ '}}}' y }}{{z}}", "a{{ \"}}\" }}b{{c}}", "/* a **/ x", "/***/ y /* b */ z", "/** d **/z", "a \u00a0b", " \u0085x", "\t\u2028y", " \u007fz", "\n\u3000w",
+	"\"x\",'y',\"a\"\"b\"", "{{ a }}", "x{{#if a}} y {{/if}}z", "{{ 😀 }}", "{{a}} 😀 {{b}}", "a,\"b 😀\",c\r\n1,2,3", "a\n\nb", "\r\r\n\n\r", "1 2\n3.5 4\r\n-5", "1/*c*/2", "1 /*c*/ 2.5e3", "a//c\nb", "a // c\n b",
 }
 
 func hasType(ts []tok, typ int) bool {
@@ -149,7 +150,7 @@ func buildOptionChecks(cfg *mon.Config, withPos bool) []*mon.Sub {
 		Name: "exhaustive-small-x-128", Rule: fmt.Sprintf("every string of length <= %d over the alphabet {a,1,.,-,/,*,',\",<,=,{,},#,space,LF,CR,é,ш,😀,U+FFFF} on the four built-in tokenizers x ", cfg.N(2, 3)) + rule,
 		Exhaustive: true, DistinctByGen: true, Floor: 100,
 		Gen: func(emit func(string)) {
-			alpha := []string{"a", "1", ".", "-", "/", "*", "'", "\"", "<", "=", "{", "}", "#", " ", "\n", "\r", "é", "ш", "😀", "￿"}
+			alpha := []string{"a", "1", ".", "-", "/", "*", "'", "\"", "<", "=", "{", "}", "#", " ", "\n", "\r", "é", "ш", "😀", "￿", "\u00a0", "\u2028", "\u007f"}
 			enumStrings(alpha, cfg.N(2, 3), func(parts []string) {
 				s := joinParts(parts)
 				for _, k := range builtinTokenizers {
@@ -186,6 +187,29 @@ func buildOptionChecks(cfg *mon.Config, withPos bool) []*mon.Sub {
 					}
 					emit(kind + "\x00" + m + "\x00" + s)
 				}
+			}
+		},
+		Exec: exec,
+	})
+	subs = append(subs, &mon.Sub{
+		Name: "long-inputs", Rule: "seeded inputs of 300..1500 characters (lexeme sequences and fragment concatenations with CR LF, LF CR, U+2028/2029 and other exotic blanks), the option-free set and one seeded option set each, on the six tokenizer configurations x " + rule,
+		Floor: 50,
+		Gen: func(emit func(string)) {
+			r := cfg.Rng(prop + "-long")
+			for i := 0; i < cfg.N(300, 12000); i++ {
+				var b strings.Builder
+				kind := mon.Pick(r, allTokenizers)
+				g := &lexGen{kind: mon.Pick(r, []string{"expression", "generic"}), r: r}
+				for b.Len() < 300+r.Intn(1200) {
+					if r.Bool() {
+						b.WriteString(lexText(g.sequence(1 + r.Intn(6))))
+					} else {
+						b.WriteString(optionInput(r, kind))
+					}
+					b.WriteString(mon.Pick(r, []string{"\r\n", "\n", " ", "\r\n", "\n\r", "\r", "\u2028", " \t"}))
+				}
+				emit(kind + "\x00" + strconv.Itoa(r.Intn(128)) + "\x00" + b.String())
+				emit(kind + "\x000\x00" + b.String())
 			}
 		},
 		Exec: exec,
@@ -239,6 +263,9 @@ func c12ErrorPositions(cfg *mon.Config) *mon.Sub {
 				}
 				all := append(append(append([]string{}, toks[:at]...), stray), toks[at:]...)
 				var b strings.Builder
+				if r.Chance(1, 8) { // vertical tab / form feed in front are not trimmed by the parser
+					b.WriteString(mon.Pick(r, []string{"\v", "\f", "\v\n", "\f "}))
+				}
 				off := 0
 				for k, t := range all {
 					if k > 0 {
